@@ -17,7 +17,16 @@ from vf import spec as S
 
 
 class Disabled(Exception):
-    """The mutation is not enabled in this spec (reference-invalid)."""
+    """The mutation is not enabled in this spec (reference-invalid).
+
+    `invalid` names the reason when it is one of the invalidities property
+    C12 lists (missing app/model/field, existing field, primary key
+    deleted, no initial value); it is None for the harness's own
+    restrictions (names in use by Meta, duplicate tables, ...)."""
+
+    def __init__(self, msg='', invalid=None):
+        Exception.__init__(self, msg)
+        self.invalid = invalid
 
 
 # --------------------------------------------------------------- to real
@@ -115,21 +124,27 @@ def apply(project, label, mj):
     kind = mj[0]
     app = S.get_app(p, label)
     if app is None:
-        raise Disabled('no app')
+        raise Disabled('no app', 'missing-app')
     if kind == 'AddField':
         _, model, name, ftype, attrs, initial = mj
         m = S.get_model(p, label, model)
-        if m is None or S.get_field(m, name) is not None:
-            raise Disabled()
+        if m is None:
+            raise Disabled('no model', 'missing-model')
+        if S.get_field(m, name) is not None:
+            raise Disabled('field exists', 'existing-field')
         if ftype != 'M2M' and not attrs.get('null') and initial is None:
-            raise Disabled()
+            raise Disabled('no initial', 'no-initial')
         m['fields'].append({'name': name, 'type': ftype,
                             'attrs': dict(attrs)})
     elif kind == 'DeleteField':
         m = S.get_model(p, label, mj[1])
         f = m and S.get_field(m, mj[2])
-        if f is None or f['attrs'].get('primary_key'):
-            raise Disabled()
+        if m is None:
+            raise Disabled('no model', 'missing-model')
+        if f is None:
+            raise Disabled('no field', 'missing-field')
+        if f['attrs'].get('primary_key'):
+            raise Disabled('primary key', 'primary-key-deleted')
         refs = S.meta_field_refs(m).get(mj[2], set())
         if refs - {'unique_together'}:
             raise Disabled('referenced by Meta')
@@ -149,8 +164,12 @@ def apply(project, label, mj):
         opts = opts or {}
         m = S.get_model(p, label, model)
         f = m and S.get_field(m, old)
-        if f is None or S.get_field(m, new) is not None:
-            raise Disabled()
+        if m is None:
+            raise Disabled('no model', 'missing-model')
+        if f is None:
+            raise Disabled('no field', 'missing-field')
+        if S.get_field(m, new) is not None:
+            raise Disabled('name in use')
         if S.meta_field_refs(m).get(old):
             raise Disabled('referenced by Meta')
         f['name'] = new
@@ -167,11 +186,16 @@ def apply(project, label, mj):
         _, model, name, attrs, initial, ftype = mj
         m = S.get_model(p, label, model)
         f = m and S.get_field(m, name)
+        if m is None:
+            raise Disabled('no model', 'missing-model')
         if f is None:
-            raise Disabled()
+            raise Disabled('no field', 'missing-field')
+        if ('null' in attrs and not attrs['null'] and f['type'] != 'M2M'
+                and initial is None and f['attrs'].get('null')):
+            raise Disabled('no initial', 'no-initial')
         if ('null' in attrs and not attrs['null'] and f['type'] != 'M2M'
                 and initial is None):
-            raise Disabled()
+            raise Disabled('no initial (column already not null)')
         if ftype and ftype != f['type']:
             # a (database-level) type change replaces the attribute set,
             # as Diff.evolution() hints it (restating the current type is
@@ -194,7 +218,7 @@ def apply(project, label, mj):
         _, model, prop, value = mj
         m = S.get_model(p, label, model)
         if m is None:
-            raise Disabled()
+            raise Disabled('no model', 'missing-model')
         if value:
             m['meta'][prop] = S.clone(value)
         else:
@@ -202,8 +226,10 @@ def apply(project, label, mj):
     elif kind == 'RenameModel':
         _, old, new, db_table = mj
         m = S.get_model(p, label, old)
-        if m is None or S.get_model(p, label, new) is not None:
-            raise Disabled()
+        if m is None:
+            raise Disabled('no model', 'missing-model')
+        if S.get_model(p, label, new) is not None:
+            raise Disabled('name in use')
         for al, om, f in S.relations_to(p, label, old):
             f['attrs']['to'] = '%s.%s' % (label, new)
         m['name'] = new
@@ -214,7 +240,7 @@ def apply(project, label, mj):
     elif kind == 'DeleteModel':
         m = S.get_model(p, label, mj[1])
         if m is None:
-            raise Disabled()
+            raise Disabled('no model', 'missing-model')
         for al, om, f in S.relations_to(p, label, mj[1]):
             if om is not m:
                 raise Disabled('referenced')
